@@ -246,6 +246,9 @@ impl Prop for C08 {
     fn id(&self) -> &'static str {
         "C08"
     }
+    fn fuzz_target(&self) -> Option<&'static str> {
+        Some("tape")
+    }
     fn rule(&self) -> String {
         "grammar-generated btor2 text (5-60 lines; all supported operators incl. swapped-operand comparisons, derived operators nand/nor/xnor/neq/iff/red*, shifts, div/rem, concat/read/ite/write, constants in base 2/10/16 incl. negative constd, zero/one/ones, negated operand references on any bit-vector operand, sorts declared in any order and duplicated, states with/without init/next, bit-vector-to-array init, named and unnamed lines) with its own line-by-line semantics; parsed system's output/bad/constraint/init/next expressions evaluated by the reference evaluator (symbols matched by position) must equal the file's own value under 8 valuations; inputs/states have declared sorts; ~15% ill-sorted variants (one declared sort or one operand swapped) must not yield a system. Non-trivial: file with >= 1 negated operand reference and >= 1 of swapped-operand comparison / derived operator / base-10 or base-16 constant / array read or write; distinct by hash of the text.".into()
     }
